@@ -57,7 +57,7 @@ def go (v : Variant) (o : String) (evs : List String) : String :=
     | none => "bad-op"
   | _, _ => "bad-op"
 
-/-! `c39h <code|sizefix|seede> <orig-hex> ev …` runs the handle model (`Tahoe/Sftp/Handle.lean`); ev ∈
+/-! `c39h <code|prefix|seede> <orig-hex> ev …` (`code` = the current code, `prefix` = before d9a6762) runs the handle model (`Tahoe/Sftp/Handle.lean`); ev ∈
     W:OFF:HEX (writeChunk request)  S:N (setAttrs size request)  C (close request)  st (the download starts)
     k:N (download chunk)  d:1|d:0 (download_done)  t (the turn in which when_done() fires).
     Output: `<has_changed after each event, one digit each> <pending|ok|failed> <stored-hex | none>`. -/
@@ -80,7 +80,7 @@ def hrunShow (hv : HVariant) (orig : Tahoe.Sftp.Bytes) (h : HSt) (acc : List Cha
     hrunShow hv orig h' ((if h'.hasChanged then '1' else '0') :: acc) es
 
 def goH (v o : String) (evs : List String) : String :=
-  let hv : Option HVariant := if v == "code" then some .code else if v == "sizefix" then some .sizeFix
+  let hv : Option HVariant := if v == "code" then some .code else if v == "prefix" then some .preFix
     else if v == "seede" then some .seedE else none
   match hv, bytesOfHex o, evs.mapM parseHEv with
   | some hv, some orig, some es =>
